@@ -588,6 +588,108 @@ def c10_cal_max(ctx):
     acc.flush()
 
 
+# the box of the inner masses -------------------------------------------------------------------
+# Kinematics (written from the sequential two-body picture, not from the code): PhaseSpaceGenerator(m0, [m_1..m_n]) builds the event from the END of the daughter
+# list: the inner mass M_i (i = 0..n-3) is the invariant mass of the LAST i+2 daughters {m_(n-i-1), ..., m_n} (generate_momentum: step i decays
+# M_(i+1) -> M_i + m_(n-i-1), starting from M_(-1) = m_n).  A system of particles is at least as heavy as the sum of its members, and the remaining first
+# n-i-2 daughters need their rest energy, so
+#       lo_i = m_(n-i-1) + ... + m_n  <=  M_i  <=  m0 - (m_1 + ... + m_(n-i-2)) = hi_i ,
+# both edges are attained in the closure of the physical region.  mass_range must be exactly this box: it is the documented range of the proposal (test_sample.py
+# passes mass_range[i] to adaptive_shape) and the `bounds=` of the maximiser in cal_max_weight, which therefore only returns a bound of the weight when the box
+# covers the whole physical region.
+def _spec_mass_box(m0, mi):
+    n = len(mi)
+    return [(math.fsum(mi[n - i - 2:]), m0 - math.fsum(mi[:n - i - 2])) for i in range(n - 2)]
+
+
+def _orderings(ctx, base, cap):
+    """distinct orderings of the mass multiset `base`: all of them when there are at most `cap`, otherwise the sorted, the reversed and cap-2 drawn with ctx.rng"""
+    import itertools
+
+    perms = sorted(set(itertools.permutations(base)))
+    if len(perms) <= cap:
+        return perms
+    keep = [tuple(sorted(base)), tuple(sorted(base, reverse=True))]
+    return keep + ctx.rng.sample([p for p in perms if p not in keep], cap - 2)
+
+
+# n = 4, 5 bodies, the second-to-last daughter lighter than the third-to-last one (and other non-monotonic orders).  On the unchanged tree the single L-BFGS-B run of
+# cal_max_weight converges for each of these sets from the start points drawn after tf.random.set_seed(0..4) (max weight 0.9977..0.9990 = 1/1.001); the six-body
+# orderings are NOT in this list because there the maximiser itself stops early from some start points (known finding iface.C10/cal_max_weight, 6 bodies seed 4:
+# weight 5190) - a defect of the maximisation strategy, not of the box.
+_CALMAX_NONMONOTONIC = [(5.28, [0.14, 1.87, 0.14, 0.49]), (5.0, [0.5, 1.5, 0.25, 1.0]), (3.0, [0.1, 0.9, 0.2, 0.5]), (4.0, [0.0, 1.0, 0.0, 0.5]),
+                        (4.0, [1.0, 0.25, 1.0, 0.25, 0.5])]
+
+
+@group(["C10"], "iface.C10/mass_range", ["phasespace:PhaseSpaceGenerator.get_mass_range", "phasespace:PhaseSpaceGenerator.generate_mass",
+                                         "phasespace:PhaseSpaceGenerator.cal_max_weight", "phasespace:PhaseSpaceGenerator.get_weight"],
+       env="tf", kind="B",
+       bound="mass_range: every distinct ordering of 3 mass multisets per n for n = 3, 4, 5 (incl. equal, massless and near-threshold daughters) and 60 (quick) / all 720 "
+             "(thorough) orderings of 2 multisets for n = 6; 2000 proposals per ordering (tf seed 1000*seed+7); cal_max_weight: 5 non-monotonic mass sets with n = 4, 5, "
+             "tf seeds 0..4 (fixed), 1e5 proposals each",
+       assumes=["the cal_max_weight clause uses start points (tf seeds 0..4) from which the single L-BFGS-B run of the unchanged code converges; the weakness of that "
+                "maximisation strategy is the separate known finding iface.C10/cal_max_weight/weight_le_1_after_cal_max_weight"])
+def c10_mass_range(ctx):
+    tf = ctx.mod("tensorflow_wrapper").tf
+    PS = ctx.mod("phasespace")
+    acc = Acc(ctx)
+    acc.declare("mass_range_is_kinematic_box",
+                "len(mass_range) == n-2 and for every i: mass_range[i] == (sum of the LAST i+2 daughter masses, m0 - sum of the FIRST n-i-2 daughter masses) to 1e-12*m0 "
+                "(lower AND upper edge of the invariant mass of the last i+2 daughters), for every ordering of the daughter list incl. non-monotonic ones, n = 3..6")
+    acc.declare("proposals_fill_kinematic_box",
+                "every proposed inner mass satisfies lo_i <= M_i <= hi_i (the kinematic box, 1e-12*m0) and the proposals of 2000 tuples reach into the upper 5 % and the "
+                "lower 5 % of [lo_0, hi_0] (the first inner mass is uniform on the whole box edge: P(miss) = 2*0.95^2000 < 1e-44)")
+    acc.declare("weight_le_1_after_cal_max_weight_nonmonotonic_order",
+                "after cal_max_weight() 0 <= get_weight(ms) <= 1 and finite on 1e5 proposals when the daughter list is not mass ordered (second-to-last daughter lighter "
+                "than the third-to-last), n = 4, 5: the maximiser has to search the WHOLE kinematic box")
+    multisets = {
+        3: [(3.0, [0.1, 0.5, 0.9]), (1.0, [0.0, 0.25, 0.25]), (1.0, [0.3, 0.3, 0.4 - 1e-6])],
+        4: [(5.28, [0.14, 1.87, 0.14, 0.49]), (4.0, [0.0, 0.5, 1.0, 1.5]), (2.0, [0.3, 0.3, 0.3, 0.3])],
+        5: [(8.0, [1.0, 0.5, 0.25, 2.0, 0.0]), (5.3, [0.14, 0.14, 0.49, 0.94, 1.87]), (1.0, [0.1, 0.2, 0.3, 0.15, 0.25 - 1e-6])],
+        6: [(3.3, [0.5, 0.4, 0.3, 0.2, 0.1, 0.05]), (6.0, [0.2, 1.5, 0.3, 1.0, 0.1, 0.8])],
+    }
+    TOL = 1e-12   # sums of <= 6 masses <= m0: rounding <= 6 eps m0 = 1.3e-15 m0
+    for n, lst in multisets.items():
+        for m0, base in lst:
+            for mi in _orderings(ctx, base, 720 if (n < 6 or ctx.tier != "quick") else 60):
+                mi = list(mi)
+                box = _spec_mass_box(m0, mi)
+                gen = PS.PhaseSpaceGenerator(m0, list(mi))
+                got = [tuple(float(x) for x in r) for r in gen.mass_range]
+                ctx.count(key=(m0, tuple(mi)), sample={"m0": m0, "mi": mi})
+                ok = len(got) == n - 2 and all(len(g) == 2 and abs(g[0] - b[0]) <= TOL * m0 and abs(g[1] - b[1]) <= TOL * m0 for g, b in zip(got, box))
+                bad_i = [i for i, (g, b) in enumerate(zip(got, box)) if abs(g[0] - b[0]) > TOL * m0 or abs(g[1] - b[1]) > TOL * m0]
+                acc.add("mass_range_is_kinematic_box", ok, {"m0": m0, "mi": mi, "mass_range": got, "kinematic_box": box, "first_wrong_index": bad_i[0] if bad_i else None})
+                s = 1000 * ctx.seed + 7
+                tf.random.set_seed(s)
+                ms = [np.asarray(x, dtype=np.float64) for x in gen.generate_mass(2000)]
+                inside = len(ms) == n - 2 and all(bool(np.all(x >= b[0] - TOL * m0) and np.all(x <= b[1] + TOL * m0)) for x, b in zip(ms, box))
+                lo, hi = box[0]
+                reach = inside and float(ms[0].max()) >= hi - 0.05 * (hi - lo) and float(ms[0].min()) <= lo + 0.05 * (hi - lo)
+                acc.add("proposals_fill_kinematic_box", bool(inside and reach),
+                        {"m0": m0, "mi": mi, "tf_seed": s, "kinematic_box": box, "proposal_min": [float(x.min()) for x in ms], "proposal_max": [float(x.max()) for x in ms]})
+    failing = []
+    for m0, mi in _CALMAX_NONMONOTONIC:
+        for seed in range(5):
+            tf.random.set_seed(seed)
+            gen = PS.PhaseSpaceGenerator(m0, list(mi))
+            old = float(gen.m_wtMax)
+            ctx.count(key=("cal_max", m0, tuple(mi), seed), sample={"m0": m0, "mi": mi, "tf_seed": seed})
+            _, err = _try(lambda: gen.cal_max_weight())
+            ms = gen.generate_mass(100000)
+            wt = np.asarray(gen.get_weight(ms), dtype=np.float64)
+            fin = bool(np.all(np.isfinite(wt)))
+            i = int(np.argmax(wt)) if fin else int(np.argmin(np.isfinite(wt)))
+            ok = err is None and fin and bool(wt.min() >= 0.0 and wt.max() <= 1.0)
+            if not ok:
+                failing.append({"m0": m0, "mi": mi, "tf_seed": seed, "max_weight": float(wt[i])})
+            acc.add("weight_le_1_after_cal_max_weight_nonmonotonic_order", ok,
+                    {"m0": m0, "mi": mi, "tf_seed": seed, "raised": err, "max_weight": float(wt[i]), "masses": [float(np.asarray(x)[i]) for x in ms],
+                     "m_wtMax_before": old, "m_wtMax_after": float(gen.m_wtMax), "fraction_of_proposals_above_1": float(np.mean(~(wt <= 1.0))),
+                     "mass_range_used_as_bounds": [tuple(float(x) for x in r) for r in gen.mass_range], "kinematic_box": _spec_mass_box(m0, mi), "all_failing_cases": failing})
+    acc.flush()
+
+
 # independence of sub-decays ---------------------------------------------------------------------
 # Flat Lorentz-invariant phase space with fixed intermediate masses factorises: every decay node of the chain (the top decay and every sub-system of
 # fixed mass) is an independent flat decay in its own rest frame.  ChainGenerator generates each node at rest and moves it with the PURE boost of its
@@ -2116,4 +2218,272 @@ def c20_ar_stat(ctx):
                 {"structure": sname, "pair": [names[pair[0]], names[pair[1]]], "N_toy": Nt, "N_phsp": Np, "observed": obs.tolist(), "expected": [round(float(e), 1) for e in exp],
                  "chi2": chi2, "threshold_p_1e-9": thr, "config_dict": cfg, "params_seed": ctx.seed + 21})
     del D
+    acc.flush()
+
+
+# importance sampling of inner masses -----------------------------------------------------------------
+# PhaseSpaceGenerator.mass_generator[k] = g replaces the proposal of the inner mass M_k (invariant mass of the last k+2 daughters) by an arbitrary sampler; the user divides
+# the event weight by the density of g (importance_f of multi_sampling / generate_toy, as in the library's own test_importance_f).  What acceptance-rejection needs
+# (textbook: accepted density = proposal density x acceptance probability): with
+#       target      dPhi_n  proportional to  prod_i q(M_(i+1); M_i, m_(n-i-1)) dM_0 .. dM_(n-3)       (recursive phase space, M_(-1) = m_n, M_(n-2) = m0)
+#       proposal    slot 0 default : uniform on the fixed box edge [lo_0, hi_0]                         -> constant density
+#                   slot i >= 1 default: uniform on [M_(i-1) + m_(n-i-1), hi_i]                         -> density 1 / (hi_i - M_(i-1) - m_(n-i-1)), depends on M_(i-1)
+#                   slot k custom  : g_k(M_k), drawn independently of M_(k-1)                           -> divided out by the user's importance_f
+# the weight of the generator must be PROPORTIONAL (one constant for all mass tuples) to
+#       S(M) = prod_i q_i  x  prod_{i >= 1, slot i default} (hi_i - M_(i-1) - m_(n-i-1)) ,
+# i.e. the conditional-range Jacobian belongs to exactly the slots that are drawn uniformly on the conditional range, whatever their neighbours do.
+class _SubUniform:
+    """a user-supplied inner-mass sampler: uniform on [a, b] (numpy, own stream)"""
+
+    def __init__(self, a, b, seed):
+        self.a, self.b, self.rs = a, b, np.random.RandomState(seed)
+
+    def __call__(self, x):
+        return np.where((np.asarray(x) >= self.a) & (np.asarray(x) <= self.b), 1.0 / (self.b - self.a), 0.0)
+
+    def generate(self, N):
+        return self.rs.uniform(self.a, self.b, size=int(N))
+
+
+def _spec_weight_shape(m0, mi, ms, custom):
+    """S(M) above and the smallest threshold distance min_i (M_(i+1) - M_i - m_(n-i-1)) of every tuple"""
+    n = len(mi)
+    box = _spec_mass_box(m0, mi)
+    chain = [np.full_like(ms[0], mi[-1])] + list(ms) + [np.full_like(ms[0], m0)]
+    S = np.ones_like(ms[0])
+    gap = np.full_like(ms[0], np.inf)
+    for i in range(n - 1):
+        S = S * _q(chain[i + 1], chain[i], mi[n - i - 2])
+        gap = np.minimum(gap, chain[i + 1] - chain[i] - mi[n - i - 2])
+    for i in range(1, n - 2):
+        if i not in custom:
+            S = S * (box[i][1] - ms[i - 1] - mi[n - i - 2])
+    return np.where(gap > 0, S, 0.0), gap
+
+
+_IMPORTANCE_CASES = [
+    # m0, mi, custom slots {slot: (fraction of the box edge from, to)}
+    (2.0, [0.3, 0.3, 0.3, 0.3], {}),                       # control: no custom sampler
+    (2.0, [0.3, 0.3, 0.3, 0.3], {0: "BW"}),                # the set-up of test_importance_f: BWGenerator(0.8, 0.05, 0.6, 1.4) on m(34)
+    (2.0, [0.3, 0.3, 0.3, 0.3], {0: (0.1, 0.7)}),
+    (2.0, [0.3, 0.3, 0.3, 0.3], {1: (0.2, 0.9)}),
+    (2.0, [0.3, 0.3, 0.3, 0.3], {0: (0.0, 1.0), 1: (0.0, 1.0)}),
+    (5.28, [0.14, 1.87, 0.14, 0.49], {0: (0.05, 0.5)}),
+    (4.0, [0.0, 1.0, 0.0, 0.5], {1: (0.3, 1.0)}),
+    (5.3, [0.14, 0.49, 0.14, 0.94, 0.14], {0: (0.0, 0.6)}),
+    (5.3, [0.14, 0.49, 0.14, 0.94, 0.14], {1: (0.1, 0.8)}),
+    (5.3, [0.14, 0.49, 0.14, 0.94, 0.14], {2: (0.2, 1.0)}),
+    (5.3, [0.14, 0.49, 0.14, 0.94, 0.14], {0: (0.0, 0.6), 2: (0.2, 1.0)}),
+    (5.3, [0.14, 0.49, 0.14, 0.94, 0.14], {0: (0.0, 0.6), 1: (0.1, 0.8), 2: (0.2, 1.0)}),
+    (3.3, [0.5, 0.4, 0.3, 0.2, 0.1, 0.05], {1: (0.0, 0.5)}),
+    (3.3, [0.5, 0.4, 0.3, 0.2, 0.1, 0.05], {0: (0.0, 0.5), 3: (0.3, 1.0)}),
+]
+
+
+def _importance_generator(PS, BW, m0, mi, custom, seed, full_range=False):
+    """generator with custom samplers; a spec (f0, f1) is the part [lo' + f0 (hi - lo'), lo' + f1 (hi - lo')] of the box edge of slot k, where lo' = lo_k for k = 0 or
+    full_range=True, and lo' = max(lo_k, hi_(k-1) - m_(n-k-1)) for k >= 1 otherwise: a custom sampler on slot k >= 1 is drawn independently of M_(k-1), and for
+    M_k < M_(k-1) - m_(n-k-1) the unchanged get_p returns a POSITIVE momentum (both factors of lambda negative), which is the separate defect stated by the thorough
+    group iface.C20/importance_full_range_samplers; the set-ups of the other groups stay above it so that they isolate the Jacobian."""
+    n = len(mi)
+    gen = PS.PhaseSpaceGenerator(m0, list(mi))
+    box = _spec_mass_box(m0, mi)
+    made = {}
+    for k, spec in custom.items():
+        if spec == "BW":
+            made[k] = BW.BWGenerator(0.8, 0.05, box[k][0], box[k][1])
+        else:
+            lo, hi = box[k]
+            if k >= 1 and not full_range:
+                lo = max(lo, box[k - 1][1] - mi[n - k - 2])
+            made[k] = _SubUniform(lo + spec[0] * (hi - lo), lo + spec[1] * (hi - lo), seed + 17 * k)
+        gen.mass_generator[k] = made[k]
+    return gen, made
+
+
+@group(["C20"], "iface.C20/importance_weights", ["phasespace:PhaseSpaceGenerator.mass_importances", "phasespace:PhaseSpaceGenerator.get_weight",
+                                                 "phasespace:PhaseSpaceGenerator.generate_mass", "phasespace:PhaseSpaceGenerator.generate"],
+       env="tf", kind="B",
+       bound="14 generator set-ups: n = 4, 5, 6 bodies, custom samplers (uniform on a part of the box edge; the library's BWGenerator) on every single inner slot, on two and "
+             "on all slots, and none (control); 20000 proposed mass tuples each (tf seed 1000*seed+11, numpy seed 1000*seed+12); generate(N, flatten=False) with N = 500")
+def c20_importance_weights(ctx):
+    tf = ctx.mod("tensorflow_wrapper").tf
+    PS = ctx.mod("phasespace")
+    BW = ctx.mod("generator.breit_wigner")
+    acc = Acc(ctx)
+    acc.declare("weight_proportional_to_phase_space_over_proposal",
+                "with custom samplers on any subset of the inner masses, get_weight(ms) == c * prod_i q(M_(i+1); M_i, m) * prod_{i >= 1, slot i NOT custom} (hi_i - M_(i-1) - m_(n-i-1)) "
+                "with ONE constant c for all proposed tuples (max/min of the ratio - 1 <= 1e-9 over tuples at least 1e-4*m0 inside every threshold), and 0 outside the "
+                "physical region: the conditional-range Jacobian belongs to exactly the slots drawn uniformly on the conditional range, so that weight / importance_f is "
+                "proportional to target density / proposal density")
+    acc.declare("importance_weight_in_unit_interval", "0 <= get_weight(ms) <= 1, finite, for every proposed tuple of a generator with custom inner-mass samplers")
+    acc.declare("unflattened_generate_returns_the_same_weight",
+                "generate(N, flatten=False) of a generator with custom samplers returns N (weight, event) pairs whose weight is c * S(M) for the invariant masses M of the "
+                "returned momenta (same constant c as get_weight; 1e-7 relative: the masses are recomputed from boosted momenta)")
+    for case_i, (m0, mi, custom) in enumerate(_IMPORTANCE_CASES):
+        n = len(mi)
+        s_tf, s_np = 1000 * ctx.seed + 11, 1000 * ctx.seed + 12
+        tf.random.set_seed(s_tf)
+        np.random.seed(s_np)
+        gen, made = _importance_generator(PS, BW, m0, mi, custom, s_np)
+        w = {"m0": m0, "mi": mi, "custom_slots": {str(k): (v if v == "BW" else list(v)) for k, v in custom.items()}, "tf_seed": s_tf, "numpy_seed": s_np, "proposals": 20000}
+        ctx.count(key=("case", case_i), sample=w)
+        ms = [np.asarray(x, dtype=np.float64) for x in gen.generate_mass(20000)]
+        wt, err = _try(lambda: np.asarray(gen.get_weight(ms), dtype=np.float64) * np.ones(20000))
+        if err:
+            acc.add("weight_proportional_to_phase_space_over_proposal", False, dict(w, raised=err))
+            continue
+        S, gap = _spec_weight_shape(m0, mi, ms, set(custom))
+        fin = bool(np.all(np.isfinite(wt)))
+        acc.add("importance_weight_in_unit_interval", fin and bool(wt.min() >= 0.0 and wt.max() <= 1.0), dict(w, min_weight=float(np.min(wt)), max_weight=float(np.max(wt))))
+        # conditioning: q = sqrt((M^2-(a+b)^2)(M^2-(a-b)^2))/2M loses relative accuracy eps*M/(M-a-b) at threshold; 1e-4*m0 inside -> <= 1e-11
+        inner = gap > 1e-4 * m0
+        outside = gap < 0
+        ratio = wt[inner] / S[inner]
+        spread = float(ratio.max() / ratio.min() - 1.0) if inner.sum() >= 100 and ratio.min() > 0 else float("inf")
+        j = int(np.argmax(np.abs(ratio / np.median(ratio) - 1.0))) if inner.sum() else 0
+        idx = np.flatnonzero(inner)
+        ok = fin and spread <= 1e-9 and bool(np.all(wt[outside] == 0.0))
+        acc.add("weight_proportional_to_phase_space_over_proposal", ok,
+                dict(w, tuples_compared=int(inner.sum()), ratio_min=float(ratio.min()) if inner.sum() else None, ratio_max=float(ratio.max()) if inner.sum() else None,
+                     max_over_min_minus_1=spread, worst_tuple=[float(x[idx[j]]) for x in ms] if inner.sum() else None,
+                     weight_there=float(wt[idx[j]]) if inner.sum() else None, spec_shape_there=float(S[idx[j]]) if inner.sum() else None,
+                     nonzero_weight_outside_physical_region=int(np.sum(wt[outside] != 0.0))))
+        if not custom or not np.isfinite(spread):
+            continue
+        c = float(np.median(ratio))
+        N = 500
+        out, err = _try(lambda: gen.generate(N, flatten=False))
+        if err or not (isinstance(out, tuple) and len(out) == 2):
+            acc.add("unflattened_generate_returns_the_same_weight", False, dict(w, N=N, raised=err))
+            continue
+        w2, ps = out
+        w2 = np.asarray(w2, dtype=np.float64)
+        ps = [np.asarray(p, dtype=np.float64) for p in ps]
+        ok = _shape_ok(ps, n, N) and w2.shape == (N,)
+        dev = None
+        if ok:
+            ms2 = [_inv_mass(sum(ps[n - i - 2:])) for i in range(n - 2)]
+            S2, gap2 = _spec_weight_shape(m0, mi, ms2, set(custom))
+            good = gap2 > 1e-3 * m0
+            dev = float(np.max(np.abs(w2[good] / (c * S2[good]) - 1.0))) if good.any() else None
+            # events with zero weight are proposals outside the physical region: their momenta carry no information (q = 0)
+            ok = bool(np.all(np.isfinite(w2)) and np.all((w2 >= 0) & (w2 <= 1))) and (dev is None or dev <= 1e-7)
+        acc.add("unflattened_generate_returns_the_same_weight", ok, dict(w, N=N, max_relative_deviation=dev, constant_c=c))
+    acc.flush()
+
+
+@group(["C20"], "iface.C20/importance_sampling_statistical", ["phasespace:PhaseSpaceGenerator.mass_importances", "phasespace:PhaseSpaceGenerator.generate",
+                                                              "generator.generator:multi_sampling", "generator.generator:single_sampling2"],
+       env="tf", kind="B", tiers=("thorough",),
+       bound="STATISTICAL, false-alarm probability <= 1e-9 per test: multi_sampling(gen, constant amplitude, N = 20000, importance_f = density of the custom sampler) for "
+             "3 four-body and 1 five-body set-ups with a custom sampler on one inner mass (BWGenerator / uniform over the whole range of slot 0: 20-bin spectra of every "
+             "inner mass; uniform on the part [max(lo_1, hi_0 - m), hi_1] of slot 1: 20-bin spectrum of that mass on that part) against the exact recursive phase-space "
+             "spectrum (chi-square over bins with expectation >= 20, threshold = quantile 1 - 1e-9)")
+def c20_importance_stat(ctx):
+    tf = ctx.mod("tensorflow_wrapper").tf
+    PS = ctx.mod("phasespace")
+    BW = ctx.mod("generator.breit_wigner")
+    G = ctx.mod("generator.generator")
+    acc = Acc(ctx)
+    acc.declare("importance_sampled_toy_follows_phase_space",
+                "N events returned by multi_sampling with a constant amplitude, a phase-space generator with a custom sampler g on one inner mass and importance_f = g follow "
+                "flat n-body phase space: every inner-mass spectrum agrees with the exact recursive phase-space spectrum (chi-square, p > 1e-9), exactly N events")
+    cases = [(2.0, [0.3, 0.3, 0.3, 0.3], {0: "BW"}), (2.0, [0.3, 0.3, 0.3, 0.3], {0: (0.0, 1.0)}), (2.0, [0.3, 0.3, 0.3, 0.3], {1: (0.0, 1.0)}),
+             (5.3, [0.14, 0.49, 0.14, 0.94, 0.14], {1: (0.0, 1.0)})]
+    N = 20000
+    for case_i, (m0, mi, custom) in enumerate(cases):
+        n = len(mi)
+        s_tf, s_np = 1000 * ctx.seed + 13 + case_i, 1000 * ctx.seed + 14 + case_i
+        tf.random.set_seed(s_tf)
+        np.random.seed(s_np)
+        gen, made = _importance_generator(PS, BW, m0, mi, custom, s_np)
+
+        def subs(p, n=n):
+            return [_inv_mass(sum(np.asarray(x, dtype=np.float64) for x in p[n - i - 2:])) for i in range(n - 2)]
+
+        def importance_f(p, made=made):
+            m = subs(p)
+            r = np.ones(len(m[0]))
+            for k, g in made.items():
+                r = r * g(m[k])
+            return tf.constant(r)
+
+        with _quiet():
+            out, err = _try(lambda: G.multi_sampling(lambda k: gen.generate(k), lambda p: tf.ones([p[0].shape[0]], dtype="float64"), N, importance_f=importance_f, display=False))
+        w = {"m0": m0, "mi": mi, "custom_slots": {str(k): (v if v == "BW" else list(v)) for k, v in custom.items()}, "tf_seed": s_tf, "numpy_seed": s_np, "N": N}
+        if err:
+            acc.add("importance_sampled_toy_follows_phase_space", False, dict(w, raised=err))
+            continue
+        toy = [np.asarray(x, dtype=np.float64) for x in out[0]]
+        box = _spec_mass_box(m0, mi)
+        # a sampler on slot k >= 1 covers only [a, b] = the part of the box edge above hi_(k-1) - m (see _importance_generator), so the toy is phase space CONDITIONAL on
+        # M_k in [a, b]: for such a set-up only the spectrum of M_k itself, renormalised on [a, b], is compared
+        partial = {k: (g.a, g.b) for k, g in made.items() if isinstance(g, _SubUniform) and (g.a > box[k][0] or g.b < box[k][1])}
+        all_m = subs(toy)
+        for i, m in enumerate(all_m):
+            if partial and i not in partial:
+                continue
+            lo_e, hi_e = partial.get(i, box[i])
+            edges = np.linspace(lo_e, hi_e, 21)
+            obs, _ = np.histogram(m, bins=edges)
+            exp = _spectrum_probs(m0, list(reversed(mi[n - i - 2:])), mi[:n - i - 2], edges) * len(m)
+            use = exp >= 20
+            chi2 = float(np.sum((obs[use] - exp[use]) ** 2 / exp[use]))
+            thr = _chi2_sf_threshold(int(use.sum()) - 1)
+            ctx.count(key=("imp", case_i, i), sample=dict(w, inner_mass=i, chi2=chi2, threshold=thr))
+            acc.add("importance_sampled_toy_follows_phase_space", len(m) == N and int(obs.sum()) == N and chi2 <= thr,
+                    dict(w, inner_mass_of_last_k_daughters=i + 2, returned=len(m), observed=obs.tolist(), expected=[round(float(e), 1) for e in exp], chi2=chi2,
+                         threshold_p_1e_9=thr))
+    acc.flush()
+
+
+@group(["C20"], "iface.C20/importance_full_range_samplers", ["phasespace:get_p", "phasespace:PhaseSpaceGenerator.get_weight", "phasespace:PhaseSpaceGenerator.generate",
+                                                            "phasespace:PhaseSpaceGenerator.generate_momentum_i"],
+       env="tf", kind="B", tiers=("thorough",),
+       bound="custom samplers that cover the WHOLE documented mass_range[k] of an inner slot k >= 1 (the set-up of the library's test_sample.py, which puts a LinearInterp "
+             "over mass_range[node_i] on every node): 4 set-ups with n = 4, 5; 20000 proposed tuples; generate(5000) and generate(5000, flatten=False)")
+def c20_importance_full_range(ctx):
+    tf = ctx.mod("tensorflow_wrapper").tf
+    PS = ctx.mod("phasespace")
+    BW = ctx.mod("generator.breit_wigner")
+    acc = Acc(ctx)
+    acc.declare("zero_weight_outside_physical_region",
+                "a proposed mass tuple with M_k < M_(k-1) + m_(n-k-1) for some k (a sub-system heavier than the system that contains it; possible because a custom "
+                "sampler is drawn independently of M_(k-1)) has weight exactly 0 - also when M_k < M_(k-1) - m_(n-k-1)")
+    acc.declare("events_physical_with_full_range_samplers",
+                "every event returned by generate(N) (and every event of positive weight from generate(N, flatten=False)) is finite and its momenta add up to (m0,0,0,0) "
+                "to 2e-7*m0")
+    cases = [(2.0, [0.3, 0.3, 0.3, 0.3], {1: (0.0, 1.0)}), (2.0, [0.3, 0.3, 0.3, 0.3], {0: (0.0, 1.0), 1: (0.0, 1.0)}),
+             (5.3, [0.14, 0.49, 0.14, 0.94, 0.14], {2: (0.0, 1.0)}), (5.3, [0.14, 0.49, 0.14, 0.94, 0.14], {0: (0.0, 1.0), 1: (0.0, 1.0), 2: (0.0, 1.0)})]
+    for case_i, (m0, mi, custom) in enumerate(cases):
+        s_tf, s_np = 1000 * ctx.seed + 15, 1000 * ctx.seed + 16
+        tf.random.set_seed(s_tf)
+        np.random.seed(s_np)
+        gen, made = _importance_generator(PS, BW, m0, mi, custom, s_np, full_range=True)
+        w = {"m0": m0, "mi": mi, "custom_slots_full_mass_range": sorted(custom), "tf_seed": s_tf, "numpy_seed": s_np}
+        ctx.count(key=("full", case_i), sample=w)
+        ms = [np.asarray(x, dtype=np.float64) for x in gen.generate_mass(20000)]
+        wt = np.asarray(gen.get_weight(ms), dtype=np.float64) * np.ones(20000)
+        S, gap = _spec_weight_shape(m0, mi, ms, set(custom))
+        out = gap < 0
+        badw = out & (wt != 0.0)
+        j = int(np.flatnonzero(badw)[0]) if badw.any() else 0
+        acc.add("zero_weight_outside_physical_region", not badw.any(),
+                dict(w, proposals=20000, outside=int(out.sum()), outside_with_nonzero_weight=int(badw.sum()), example_tuple=[float(x[j]) for x in ms], weight_there=float(wt[j])))
+        for flat in (True, False):
+            N = 5000
+            res, err = _try(lambda: gen.generate(N) if flat else gen.generate(N, flatten=False))
+            if err:
+                acc.add("events_physical_with_full_range_samplers", False, dict(w, N=N, flatten=flat, raised=err))
+                continue
+            w2, ps = (np.ones(N), res) if flat else (np.asarray(res[0], dtype=np.float64), res[1])
+            ps = [np.asarray(p, dtype=np.float64) for p in ps]
+            tot = sum(ps)
+            dev = np.maximum(np.abs(tot[:, 0] - m0), np.max(np.abs(tot[:, 1:]), axis=1)) / m0
+            dev = np.where(np.isfinite(dev), dev, np.inf)
+            sel = w2 > 0
+            nbad = int(np.sum(dev[sel] > TOL_SINGLE))
+            acc.add("events_physical_with_full_range_samplers", nbad == 0,
+                    dict(w, N=N, flatten=flat, events_considered=int(sel.sum()), unphysical_events=nbad, max_deviation_over_m0=float(dev[sel].max()) if sel.any() else None))
     acc.flush()
